@@ -137,7 +137,16 @@ func (k *Keeper) SetTaskResultInfo(
 			"SetTaskResultInfo:from address is not equal to the operator address",
 		)
 	}
-	opAccAddr, _ := sdk.AccAddressFromBech32(info.OperatorAddress)
+	// results, challenges and the epoch-end statistics are keyed by the operator address as a
+	// string, so only its canonical spelling is accepted (bech32 also allows all upper case, which
+	// would make the same operator a second submitter)
+	opAccAddr, err := sdk.AccAddressFromBech32(info.OperatorAddress)
+	if err != nil || opAccAddr.String() != info.OperatorAddress {
+		return errorsmod.Wrap(
+			types.ErrInvalidAddr,
+			fmt.Sprintf("SetTaskResultInfo:operator address is not in canonical form:%s", info.OperatorAddress),
+		)
+	}
 	// check operator
 	if !k.operatorKeeper.IsOperator(ctx, opAccAddr) {
 		return errorsmod.Wrap(
